@@ -314,10 +314,11 @@ class DirectCollocation(SamplingMethod):
                         opti.set_initial(target, value_k, cache_advanced=True)
                     except Exception as e:
                         # E.g for single shooting, set_initial of a state, for k>0
-                        # Error message is usually "... arbitrary expression ..." but can also be
+                        # Error message is usually "... arbitrary expression ..." (or, when the propagated state is
+                    # affine in its initial value, "... Initialization failed since variables ... are free") but can also be
                         # "... You cannot set an initial value for a parameter ..."
                         # if the dynamics contains a parameter
-                        if "arbitrary expression" in str(e) or (not target.is_valid_input() and "initial value for a parameter" in str(e)):
+                        if "arbitrary expression" in str(e) or "Initialization failed since variables" in str(e) or (not target.is_valid_input() and "initial value for a parameter" in str(e)):
                             pass
                         else:
                             # Other type of error: 
